@@ -1,12 +1,308 @@
 /-
-C13 — What a compiled grammar can generate, the validator accepts.  (under construction)
+C13 — What a compiled grammar can generate, the validator accepts.
+
+The OCTAVE reader (lexer/parser) is owned by another engine and is *not* modelled here: how the reader
+types a derived text is a parameter (`accepts : Str → Bool` below = "FIELD::text is read without error and
+the field's chain accepts the value read"), supplied per case by the harness from the real
+`octave_mcp.parse` / `ConstraintChain.evaluate` / `Validator`.  What is proved here, for every input:
+
+  * `C13_const_language`    the language of the CONST fragment is exactly the singleton `{str(value)}`;
+  * `C13_enum_language`     the language of the ENUM fragment is exactly the set of members;
+  * `C13_boolean_language`  the language of TYPE[BOOLEAN] is exactly `{true, false}`;
+  * `C13_number_language`   every string derivable from TYPE[NUMBER] is fully matched by the reader's
+                            NUMBER token pattern `-?\d+\.?\d*(?:[eE][+-]?\d+)?`;
+  * `C13_const`, `C13_enum`, `C13_boolean`, `C13_number`   therefore acceptance of *every* derivation reduces
+                            to acceptance of the listed texts (finite, checked exhaustively on the real code);
+  * `C13_with_req_opt`      adding REQ/OPT anywhere in the chain changes neither the deciding member nor
+                            the fragment;
+  * negative theorems       F34 (DATE/ISO8601 derive `2024-01-15`, which is not a date once read back as
+                            `2024 -01 -15`, and the calendar-impossible `2023-02-30`), C13N1 (CONST[true]
+                            derives `True` and not `true`).
 -/
-import Octave.Model.Gbnf
-import Octave.Spec.GbnfSyntax
-import Octave.Spec.PyNumber
+import Octave.Lemmas.Number
+import Octave.Spec.Calendar
+import Octave.Props.C12
+set_option linter.unusedSimpArgs false
 namespace Octave.C13
-open Octave Octave.Gbnf
+open Octave Octave.Gbnf Octave.C12
+
+/-! ## characterising facts -/
 
 theorem gen_chainPriority : Gen.chainPriority = [[.const], [.enum], [.regex], [.type], [.date, .iso8601]] := by decide
+
+theorem gen_typeFragments :
+    compileType "BOOLEAN".toList = "(\"true\" | \"false\")".toList ∧
+    compileType "NUMBER".toList = "\"-\"? [0-9]+ (\".\" [0-9]+)?".toList := by decide
+
+/-- the rule bodies the GBNF parser builds for the constant fragments -/
+theorem booleanFragment_body :
+    parseFragment true (compileType "BOOLEAN".toList) = some [[.group [[.lit "true".toList], [.lit "false".toList]]]] := by rfl
+theorem numberFragment_body : parseFragment true (compileType "NUMBER".toList) = some numberAlts := by rfl
+
+def dateAlts : Alts :=
+  [[digitCls, digitCls, digitCls, digitCls, .lit "-".toList, digitCls, digitCls, .lit "-".toList, digitCls, digitCls]]
+theorem dateFragment_body : parseFragment true Gen.dateFragment = some dateAlts := by rfl
+
+/-! ## fragments with a parameter: the rule body -/
+
+theorem lex_fragHead (toks : List Tok) :
+    lexRun true ⟨.top, toks⟩ "x ::= ".toList = ⟨.top, .define :: .name "x".toList :: toks⟩ := by
+  simp [lexStep, lexAction, lexTop, isWordChar, isLower, isUpper, isDigit]
+
+theorem constFragment_body (v : Str) : parseFragment true (compileConst v) = some [[.lit v]] := by
+  have hct := gen_enumConst.2.2.2
+  unfold compileConst
+  rw [hct, escapeLiteral_eq]
+  have hlex : lex true ("x ::= ".toList ++ render [.lit "\"".toList, .var 0, .lit "\"".toList] [v.flatMap esc1]) =
+      some [.name "x".toList, .define, .lit v] := by
+    unfold lex
+    have h1 : List.foldl (lexStep true) lexInit ("x ::= ".toList ++ render [.lit "\"".toList, .var 0, .lit "\"".toList] [v.flatMap esc1])
+        = lexRun true ⟨.top, []⟩ ("x ::= ".toList ++ quoteLit v) := by
+      simp [lexRun, lexInit, render, quoteLit]
+    rw [h1, lexRun_append, lex_fragHead, lex_quoteLit]
+    simp [lexFinish]
+  unfold parseFragment parse
+  rw [hlex]
+  rfl
+
+theorem lex_enumFrag (vals : List Str) (hne : vals ≠ []) :
+    lex true ("x ::= ".toList ++ ('(' :: List.intercalate " | ".toList (vals.map quoteLit) ++ [')'])) =
+      some ([.name "x".toList, .define, .lparen] ++ altToks .lit vals ++ [.rparen]) := by
+  unfold lex
+  have h1 : List.foldl (lexStep true) lexInit ("x ::= ".toList ++ ('(' :: List.intercalate " | ".toList (vals.map quoteLit) ++ [')']))
+      = lexRun true ⟨.top, []⟩ ("x ::= ".toList ++ ('(' :: List.intercalate " | ".toList (vals.map quoteLit) ++ [')'])) := rfl
+  rw [h1, lexRun_append, lex_fragHead]
+  have h2 : lexRun true ⟨.top, [.define, .name "x".toList]⟩ ('(' :: List.intercalate " | ".toList (vals.map quoteLit) ++ [')'])
+      = lexRun true ⟨.top, [.lparen, .define, .name "x".toList]⟩ (List.intercalate " | ".toList (vals.map quoteLit) ++ [')']) := by
+    simp [lexStep, lexAction, lexTop, isWordChar, isLower, isUpper, isDigit]
+  rw [h2, lexRun_append, lex_enumBody vals hne]
+  simp [lexStep, lexAction, lexTop, isWordChar, isLower, isUpper, isDigit, lexFinish]
+
+theorem enumFragment_body (vals : List Str) (hne : vals ≠ []) :
+    parseFragment true (compileEnum vals) = some [[.group (vals.map fun v => [Item.lit v])]] := by
+  obtain ⟨hq, hj, hw, _⟩ := gen_enumConst
+  unfold compileEnum
+  rw [hq, hj, hw]
+  have hmap : (vals.map fun v => render [.lit "\"".toList, .var 0, .lit "\"".toList] [escapeLiteral v]) = vals.map quoteLit := by
+    apply List.map_congr_left
+    intro v _
+    simp [render, quoteLit, escapeLiteral_eq]
+  rw [hmap]
+  have htext : render [.lit "(".toList, .var 0, .lit ")".toList] [List.intercalate " | ".toList (vals.map quoteLit)] =
+      '(' :: List.intercalate " | ".toList (vals.map quoteLit) ++ [')'] := by simp [render]
+  rw [htext]
+  unfold parseFragment parse
+  rw [lex_enumFrag vals hne]
+  simp only [parseToks]
+  have hrun : List.foldl pStep (cInit, bInit) ([.name "x".toList, .define, .lparen] ++ altToks .lit vals ++ [.rparen]) =
+      pRun (pRun (pRun (cInit, bInit) [.name "x".toList, .define, .lparen]) (altToks .lit vals)) [.rparen] := by
+    simp [pRun, List.foldl_append]
+  rw [hrun]
+  have h3 : pRun (cInit, bInit) [.name "x".toList, .define, .lparen] =
+      (⟨.body [AFrame.fresh] AFrame.fresh .none, ["x".toList], [], []⟩, ⟨[], "x".toList, [⟨[], []⟩], ⟨[], []⟩⟩) := by
+    simp [pStep, cStep, cAction, cBody, bStep, cInit, bInit]
+  rw [h3]
+  obtain ⟨sym, top', hr, hclose⟩ := pRun_altLits vals hne [AFrame.fresh] AFrame.fresh ["x".toList] [] []
+    ⟨[], "x".toList, [⟨[], []⟩], ⟨[], []⟩⟩ [] rfl rfl
+  rw [hr]
+  simp [pStep, cStep, cAction, cBody, bStep, pFinish, cFinish, Builder.endRule, BFrame.close, hclose, AFrame.fresh,
+    AFrame.closeEmpty] at hclose ⊢
+  exact hclose
+
+/-! ## the languages -/
+
+/-- **CONST.**  The value part of a CONST field derives exactly one text: `str(const_value)` (whatever it
+contains — the escaping of the literal is undone by the GBNF reader, `escape_literal_closed`). -/
+theorem C13_const_language (v : Str) :
+    ∃ alts, parseFragment true (compileConst v) = some alts ∧
+      ∀ (g : List (Str × Alts)) (f : Nat) (s : Str), 4 ≤ f → (derivesAlts f g alts s = true ↔ s = v) := by
+  refine ⟨[[.lit v]], constFragment_body v, fun g f s hf => ?_⟩
+  have := derives_lits g [v] s f (by simpa using hf)
+  simpa using this
+
+/-- **ENUM.**  The value part of an ENUM field derives exactly its members. -/
+theorem C13_enum_language (vals : List Str) (hne : vals ≠ []) :
+    ∃ alts, parseFragment true (compileEnum vals) = some alts ∧
+      ∀ (g : List (Str × Alts)) (f : Nat) (s : Str), vals.length + 6 ≤ f → (derivesAlts f g alts s = true ↔ s ∈ vals) :=
+  ⟨_, enumFragment_body vals hne, fun g f s hf => derives_group_lits g vals s f hf⟩
+
+/-- **TYPE[BOOLEAN].**  Exactly `true` and `false`. -/
+theorem C13_boolean_language :
+    ∃ alts, parseFragment true (compileType "BOOLEAN".toList) = some alts ∧
+      ∀ (g : List (Str × Alts)) (f : Nat) (s : Str), 8 ≤ f →
+        (derivesAlts f g alts s = true ↔ s = "true".toList ∨ s = "false".toList) := by
+  refine ⟨_, booleanFragment_body, fun g f s hf => ?_⟩
+  have := derives_group_lits g ["true".toList, "false".toList] s f (by simpa using hf)
+  simpa using this
+
+/-- **TYPE[NUMBER].**  Every derivable text (any derivation depth) is `-`? digits+ (`.` digits+)? and is
+matched in full by the reader's NUMBER token pattern. -/
+theorem C13_number_language :
+    ∃ alts, parseFragment true (compileType "NUMBER".toList) = some alts ∧
+      ∀ (g : List (Str × Alts)) (f : Nat) (s : Str), derivesAlts f g alts s = true → pyNumberFull s = true :=
+  ⟨numberAlts, numberFragment_body, fun g f s h => number_sound g f s h⟩
+
+example : derivesAlts 40 [] numberAlts "-12.50".toList = true := by decide +kernel
+example : derivesAlts 40 [] numberAlts "007".toList = true := by decide +kernel
+example : derivesAlts 40 [] numberAlts "1.".toList = false := by decide +kernel
+example : pyNumberFull "1e5".toList = true ∧ derivesAlts 40 [] numberAlts "1e5".toList = false := by decide +kernel
+
+/-! ## acceptance reduces to the listed texts
+
+`accepts t` stands for: the line `FIELD::t` is read by the OCTAVE reader without error and the field's
+constraint chain accepts the value read (decided on the real code by the harness). -/
+
+theorem C13_const (accepts : Str → Bool) (v : Str) (h : accepts v = true) :
+    ∃ alts, parseFragment true (compileConst v) = some alts ∧
+      ∀ g f s, 4 ≤ f → derivesAlts f g alts s = true → accepts s = true := by
+  obtain ⟨alts, hp, hl⟩ := C13_const_language v
+  exact ⟨alts, hp, fun g f s hf hd => by rw [(hl g f s hf).mp hd]; exact h⟩
+
+theorem C13_enum (accepts : Str → Bool) (vals : List Str) (hne : vals ≠ []) (h : ∀ v ∈ vals, accepts v = true) :
+    ∃ alts, parseFragment true (compileEnum vals) = some alts ∧
+      ∀ g f s, vals.length + 6 ≤ f → derivesAlts f g alts s = true → accepts s = true := by
+  obtain ⟨alts, hp, hl⟩ := C13_enum_language vals hne
+  exact ⟨alts, hp, fun g f s hf hd => h s ((hl g f s hf).mp hd)⟩
+
+theorem C13_boolean (accepts : Str → Bool) (ht : accepts "true".toList = true) (hf' : accepts "false".toList = true) :
+    ∃ alts, parseFragment true (compileType "BOOLEAN".toList) = some alts ∧
+      ∀ g f s, 8 ≤ f → derivesAlts f g alts s = true → accepts s = true := by
+  obtain ⟨alts, hp, hl⟩ := C13_boolean_language
+  refine ⟨alts, hp, fun g f s hf hd => ?_⟩
+  rcases (hl g f s hf).mp hd with h | h <;> subst h <;> assumption
+
+/-- for NUMBER the reader-side obligation is: every full match of the NUMBER token pattern is read as a
+number (an obligation on the reader, checked by bounded enumeration and boundary samples; it fails beyond
+4300 digits — finding C13N3). -/
+theorem C13_number (accepts : Str → Bool) (h : ∀ s, pyNumberFull s = true → accepts s = true) :
+    ∃ alts, parseFragment true (compileType "NUMBER".toList) = some alts ∧
+      ∀ g f s, derivesAlts f g alts s = true → accepts s = true := by
+  obtain ⟨alts, hp, hl⟩ := C13_number_language
+  exact ⟨alts, hp, fun g f s hd => h s (hl g f s hd)⟩
+
+example : (fun s => s == "ACTIVE".toList) "ACTIVE".toList = true := by decide
+
+/-! ## REQ / OPT companions -/
+
+theorem firstOfKinds_cons (ks : List Kind) (a : Constraint) (cs : List Constraint) :
+    firstOfKinds ks (a :: cs) = if ks.contains a.kind then some a else firstOfKinds ks cs := rfl
+
+theorem firstOfKinds_skip (ks : List Kind) (x : Constraint) (cs : List Constraint) (hx : ks.contains x.kind = false) :
+    firstOfKinds ks (x :: cs) = firstOfKinds ks cs := by
+  rw [firstOfKinds_cons, hx]; rfl
+
+theorem firstOfKinds_append (ks : List Kind) (x : Constraint) : ∀ (cs : List Constraint) (c : Constraint),
+    firstOfKinds ks cs = some c → firstOfKinds ks (cs ++ [x]) = some c := by
+  intro cs
+  induction cs with
+  | nil => intro c h; simp [firstOfKinds] at h
+  | cons a r ih =>
+    intro c h
+    rw [List.cons_append, firstOfKinds_cons]
+    rw [firstOfKinds_cons] at h
+    cases hk : ks.contains a.kind with
+    | true => rw [hk] at h; simpa using h
+    | false => rw [hk] at h; simp only [Bool.false_eq_true, if_false] at h ⊢; exact ih c h
+
+theorem firstOfKinds_append_none (ks : List Kind) (x : Constraint) (hx : ks.contains x.kind = false) :
+    ∀ (cs : List Constraint), firstOfKinds ks cs = none → firstOfKinds ks (cs ++ [x]) = none := by
+  intro cs
+  induction cs with
+  | nil => intro _; rw [List.nil_append, firstOfKinds_cons, hx]; rfl
+  | cons a r ih =>
+    intro h
+    rw [List.cons_append, firstOfKinds_cons]
+    rw [firstOfKinds_cons] at h
+    cases hk : ks.contains a.kind with
+    | true => rw [hk] at h; simp at h
+    | false => rw [hk] at h; simp only [Bool.false_eq_true, if_false] at h ⊢; exact ih h
+
+theorem pick_skip (x : Constraint) : ∀ (ps : List (List Kind)), (∀ ks ∈ ps, ks.contains x.kind = false) →
+    ∀ cs, pickByPriority ps (x :: cs) = pickByPriority ps cs ∧
+      ∀ c, pickByPriority ps cs = some c → pickByPriority ps (cs ++ [x]) = some c := by
+  intro ps
+  induction ps with
+  | nil => intro _ cs; exact ⟨rfl, fun c h => by simp [pickByPriority] at h⟩
+  | cons ks r ih =>
+    intro hps cs
+    have hk := hps ks (by simp)
+    obtain ⟨ih1, ih2⟩ := ih (fun k hk' => hps k (by simp [hk'])) cs
+    constructor
+    · simp only [pickByPriority, firstOfKinds_skip ks x cs hk, ih1]
+    · intro c h
+      simp only [pickByPriority] at h ⊢
+      cases hf : firstOfKinds ks cs with
+      | some c' =>
+        rw [hf] at h; simp only [Option.some.injEq] at h; subst h
+        rw [firstOfKinds_append ks x cs c' hf]
+      | none =>
+        rw [hf] at h
+        rw [firstOfKinds_append_none ks x hk cs hf]
+        exact ih2 c h
+
+/-- **REQ/OPT companions.**  If a chain has a member of one of the priority kinds (CONST ENUM REGEX TYPE
+DATE ISO8601), then putting REQ or OPT in front of it or behind it changes neither the deciding member nor
+the compiled fragment. -/
+theorem C13_with_req_opt (cs : List Constraint) (c : Constraint) (x : Constraint)
+    (hx : x = .req ∨ x = .opt) (h : pickByPriority Gen.chainPriority cs = some c) :
+    deciding cs = some c ∧ deciding (x :: cs) = some c ∧ deciding (cs ++ [x]) = some c ∧
+    compileChain (x :: cs) = compileChain cs ∧ compileChain (cs ++ [x]) = compileChain cs := by
+  have hps : ∀ ks ∈ Gen.chainPriority, ks.contains x.kind = false := by
+    rcases hx with hx | hx <;> subst hx <;> rw [gen_chainPriority] <;> decide
+  obtain ⟨h1, h2⟩ := pick_skip x Gen.chainPriority hps cs
+  have hne : cs ≠ [] := by
+    intro hnil
+    subst hnil
+    rw [gen_chainPriority] at h
+    simp [pickByPriority, firstOfKinds] at h
+  obtain ⟨a, r, hcs⟩ : ∃ a r, cs = a :: r := by
+    cases cs with
+    | nil => exact absurd rfl hne
+    | cons a r => exact ⟨a, r, rfl⟩
+  subst hcs
+  have hd : deciding (a :: r) = some c := by simp [deciding, h]
+  have hd1 : deciding (x :: a :: r) = some c := by simp [deciding, h1, h]
+  have hd2 : deciding (a :: r ++ [x]) = some c := by
+    have := h2 c h
+    simp only [List.cons_append] at this
+    simp [deciding, this]
+  have hd2' : deciding (a :: (r ++ [x])) = some c := hd2
+  exact ⟨hd, hd1, hd2, by simp [compileChain, hd, hd1], by simp [compileChain, hd, hd2']⟩
+
+example : pickByPriority Gen.chainPriority [.opt, .enum ["A".toList], .type "STRING".toList] = some (.enum ["A".toList]) := by decide
+
+/-! ## negative theorems -/
+
+/-- **F34 (DATE).**  The DATE fragment derives `2024-01-15`; the reader types that bare text as the string
+`2024 -01 -15` (three numbers — a fact about the reader, replayed by the check), which is not a date.  And
+independently of the reader, the fragment derives the calendar-impossible `2023-02-30`, which the DATE
+constraint rejects even as a string: the fragment over-approximates. -/
+theorem F34_date_witness :
+    derivesAlts 40 [] dateAlts "2024-01-15".toList = true ∧ validYMD "2024 -01 -15".toList = false ∧
+    derivesAlts 40 [] dateAlts "2023-02-30".toList = true ∧ validYMD "2023-02-30".toList = false ∧
+    validYMD "2024-01-15".toList = true := by decide +kernel
+
+/-- … and ISO8601 contains the DATE language (same witnesses), plus `T24:00:00`-style times. -/
+theorem F34_iso8601_witness :
+    (parseFragment true Gen.iso8601Fragment).map (fun a => derivesAlts 45 [] a "2023-02-30".toList) = some true ∧
+    (parseFragment true Gen.iso8601Fragment).map (fun a => derivesAlts 45 [] a "2024-01-15T24:61:61+99:99".toList) = some true := by
+  decide +kernel
+
+/-- what remains true for DATE: a derivable text that *is* a real date and that the reader hands over as
+that very string is accepted (`validYMD` is the DATE constraint on strings). -/
+theorem C13_date_partial (accepts : Str → Bool) (h : ∀ t, validYMD t = true → accepts t = true) (t : Str)
+    (_hd : derivesAlts 40 [] dateAlts t = true) (hv : validYMD t = true) : accepts t = true := h t hv
+
+/-- **C13N1.**  CONST of the boolean `true` is compiled from Python's `str(True)`: the only derivable text is
+`True`; the OCTAVE spelling `true` is not derivable. -/
+theorem C13N1_const_true_witness :
+    ∃ alts, parseFragment true (compileConst "True".toList) = some alts ∧
+      derivesAlts 10 [] alts "True".toList = true ∧ derivesAlts 10 [] alts "true".toList = false := by
+  obtain ⟨alts, hp, hl⟩ := C13_const_language "True".toList
+  refine ⟨alts, hp, (hl [] 10 _ (by decide)).mpr rfl, ?_⟩
+  have := hl [] 10 "true".toList (by decide)
+  cases hd : derivesAlts 10 [] alts "true".toList with
+  | false => rfl
+  | true => exact absurd (this.mp hd) (by decide)
 
 end Octave.C13
